@@ -1,5 +1,6 @@
 import Slock.Properties.EngineSim
 import Slock.Proofs.EngineSimTickCore
+import Slock.Proofs.EngineSimTickCongr2
 import Slock.Proofs.EngineSimWU
 import Slock.Proofs.EngineQuiet
 import Slock.Proofs.EngineNotLate3
@@ -81,6 +82,12 @@ theorem sim_tick {s : Engine2.DB} (hr : Reachable2 s) (hld : s.leader = true) {a
   have hiq := Engine.opTick_iq a ⟨hi.qinv, hi.quiet⟩
   have hhn := Engine.opTick_HN a hi.kn hi.kw hi.hn
   exact ⟨e1, e2, Engine.opTick_inv a hi.inv, hiq.2, i1'.s3.wu, i1'.s3.kn, i1'.s3.sq, i1'.kw, hhn.1, hiq.1⟩
+
+/-- **Stage 1's `opTick` respects `Equiv`** (same scalar fields, same state under every key; the key tables may be ordered differently):
+the sweeps process the due entries sorted by pairwise distinct wheel sequence numbers. -/
+theorem opTick_respects_equiv {a b : Engine.DB} (h : Equiv a b) (ha : Inv1 a) (hb : Inv1 b) :
+    Equiv (Engine.opTick a).1 (Engine.opTick b).1 ∧ (Engine.opTick a).2 = (Engine.opTick b).2 :=
+  opTick_congr h ⟨ha.kn, ha.wu, ha.sq⟩ ⟨hb.kn, hb.wu, hb.sq⟩
 
 /-- the record-level invariant the sweeps need beyond `reachable_ki`, in every reachable state -/
 theorem reachable_kt {s : Engine2.DB} (h : Reachable2 s) (n : Nat) : KT (s.getKey n) := (reachable_sy h).dbkt.getKey n
